@@ -3,6 +3,7 @@
 import json, glob, os, re
 ROOT = os.path.dirname(os.path.dirname(os.path.abspath(__file__)))
 rows = []
+stats = {"n": 0, "own_first": 0, "any_first": 0, "own_ever": 0, "any_ever": 0}
 for d in sorted(glob.glob(os.path.join(ROOT, "seeded", "*"))):
     if not os.path.isdir(d):
         continue
@@ -19,12 +20,25 @@ for d in sorted(glob.glob(os.path.join(ROOT, "seeded", "*"))):
         for c, v in r.get("checks", {}).items():
             (caught if v.get("caught") else missed).add(c)
     missed -= caught
+    if hist:
+        prop = meta.get("property")
+        stats["n"] += 1
+        stats["own_first"] += bool(hist[0].get("checks", {}).get(prop, {}).get("caught"))
+        stats["any_first"] += any(v.get("caught") for v in hist[0].get("checks", {}).values())
+        stats["own_ever"] += any(r.get("checks", {}).get(prop, {}).get("caught") for r in hist)
+        stats["any_ever"] += bool(caught)
     needs = re.sub(r"\s+", " ", meta.get("needs", ""))[:200]
     rows.append((os.path.basename(d), meta.get("property"), ", ".join(sorted(caught)) or "-", ", ".join(sorted(missed)) or "-", needs, meta.get("note", "")))
 lines = ["| seeded change | breaks | caught by (quick tier) | not caught by | needs | note |", "|---|---|---|---|---|---|"]
 for r in rows:
     lines.append("| %s | %s | %s | %s | %s | %s |" % tuple(x.replace("|", "/") for x in r))
-table = "\n".join(lines)
+intro = ("%(n)d seeded changes were produced by sub-agents that saw only the property text (rounds 1-7, see `seeded/*/meta.json`). "
+         "At its first recorded run the check of the property a change was written against caught %(own_first)d of them "
+         "(%(any_first)d counting the sibling checks that were run alongside); after the strengthening described in section 8 "
+         "that check catches %(own_ever)d, and every remaining change is caught by the sibling check named in its note "
+         "(%(any_ever)d of %(n)d caught by some check). A change is only listed after its demonstration was confirmed "
+         "(fails with the change, passes without) in a scratch worktree by `tools/seedtest.py`.\n\n") % stats
+table = intro + "\n".join(lines)
 p = os.path.join(ROOT, "DESIGN.md")
 s = open(p).read()
 b, e = "<!-- seeded-table-begin -->", "<!-- seeded-table-end -->"
